@@ -39,7 +39,7 @@ CLAIMED = {
     "C04": dict(
         engine="E1-kernel-in-the-loop",
         technique="Coq proof (invariants over steps of the closed system: no timeout without a limit; range of the poll argument; byte invariant across timed-out calls; a time invariant relating the deadline, the instant each call was issued and K's clock, preserved by every step, which gives: TimedOut only when less than 1 ms is missing to the deadline) + kernel-in-the-loop correspondence under a virtual clock for the lateness bound",
-        text="Theorems C04_*: with no time limit a timeout is never reported, for every child and schedule (holds only since the fix of F1); with a limit, in the closed system where every call takes an arbitrary duration and a poll that finds nothing ready returns no earlier than its timeout, TimedOut is returned only when less than one millisecond is missing to the deadline = first clock reading of the call + limit (C04_timeout_truthful, C04_deadline_is_start_plus_limit); the poll() argument is within 0..i32::MAX ms for every duration; across any history of timed-out and successful reads nothing is lost or repeated and the unsent input stays queued exactly once.  PARTIAL: 'returns no later than t plus one bounded I/O step' is a monitor under the virtual clock (E1), not a theorem. Windows thread variant: C04_win_no_timeout_without_deadline.",
+        text="Theorems C04_*: with no time limit a timeout is never reported, for every child and schedule (holds only since the fix of F1); with a limit, in the closed system where every call takes an arbitrary duration and a poll that finds nothing ready returns no earlier than its timeout, TimedOut is returned only when less than one millisecond is missing to the deadline = first clock reading of the call + limit (C04_timeout_truthful, C04_deadline_is_start_plus_limit); the poll() argument is within 0..i32::MAX ms for every duration; across any history of timed-out and successful reads nothing is lost or repeated and the unsent input stays queued exactly once.  PARTIAL: 'returns no later than t plus one bounded I/O step' is a monitor under the virtual clock (E1), not a theorem. Windows thread variant: C04_win_no_timeout_without_deadline. A failing system call -- a poll interrupted by a signal handler of the caller (EINTR) included -- ends the read with that error at once (C04_syscall_error_ends_read): never a timeout, never another wait with the old timeout.",
         note="Trusted: as C01; wall-clock meaning of the virtual clock rests on the OS honouring poll timeouts. Thread variant tied as in C01.",
         design="5/C04"),
     "C05": dict(
@@ -51,7 +51,7 @@ CLAIMED = {
     "C07": dict(
         engine="E2-logged-real-spawns",
         technique="Coq: exhaustive evaluation of the launch model over every configuration x every reachable injection point x exec success/failure (completeness of the injection list is itself a theorem), plus the errno codec round trip by lia; real spawns with the same faults injected through interposed libc calls",
-        text="Theorems C07_*: Ok iff the image started; Ok only after EOF on the status pipe; after any failure (k-th pipe, k-th fcntl, fork, child dup2/chdir/signal/setuid/setgid/setpgid/exec) no descriptor of the attempt remains and a forked child has been reaped, detached or not; the error is that of the failing step; the 4-byte errno codec round-trips for every 32-bit value.  Real Popen::create is run with each fault injected; call sequences, result, descriptor table before/after and wait4(-1) are compared / checked.  The same clause is also exercised where the process that cannot be created is the k-th command of a pipeline (every terminator): no zombie or running child of the attempt afterwards, the process forked for the failing command never, detached or not.",
+        text="Theorems C07_*: Ok iff the image started; Ok only after EOF on the status pipe; after any failure (k-th pipe, k-th fcntl, fork, child dup2/chdir/signal/setuid/setgid/setpgid/exec) no descriptor of the attempt remains and a forked child has been reaped, detached or not; the error is that of the failing step; the 4-byte errno codec round-trips for every 32-bit value.  Real Popen::create is run with each fault injected; call sequences, result, descriptor table before/after and wait4(-1) are compared / checked.  The same clause is also exercised where the process that cannot be created is the k-th command of a pipeline (every terminator): no zombie or running child of the attempt afterwards, the process forked for the failing command never, detached or not.  Besides injected errnos, the failure causes the operating system really produces are provoked (working directory that is a file / device / missing / below a file / a symlink loop / over-long; program missing / not executable / a directory / empty / garbage / below a file) and their errno is required.",
         note="Trusted: as C05; one representative errno per injection point in the Coq sweep (the model never inspects the value; the real runs use several).",
         design="5/C07"),
     "C08": dict(
